@@ -218,10 +218,21 @@ class Machine:
                             ok = left in right
                         if isinstance(op, ast.NotIn):
                             ok = not ok
-                    elif isinstance(op, ast.Is):
-                        ok = left is right
-                    elif isinstance(op, ast.IsNot):
-                        ok = left is not right
+                    elif isinstance(op, (ast.Is, ast.IsNot)):
+                        # numbers, strings and tuples that are equal need
+                        # not be the same object (CPython shares only
+                        # small integers): the model takes them to be
+                        # distinct objects
+                        values = (int, float, str, tuple, frozenset)
+                        if isinstance(left, values) and isinstance(
+                                right, values) and not isinstance(
+                                    left, bool) and not isinstance(
+                                        right, bool):
+                            ok = False
+                        else:
+                            ok = left is right
+                        if isinstance(op, ast.IsNot):
+                            ok = not ok
                     else:
                         raise Unknown(au.src(e))
                 except TypeError:
@@ -339,8 +350,22 @@ class Machine:
             return sub.ev(node.body)
         if isinstance(f, tuple) and f and f[0] == 'closure':
             fn = f[1]
-            resolver = f[2] if len(f) > 2 else self.resolver
-            env = dict(self.env) if len(f) <= 2 else dict()
+            resolver = f[2] if len(f) > 2 and f[2] is not None \
+                else self.resolver
+            defenv = f[3] if len(f) > 3 else None
+            # a nested function sees the variables of the function it
+            # was defined in; a module-level one only its globals
+            if defenv is not None:
+                env = dict(defenv)
+                for k, v in self.env.items():
+                    if k.startswith('self.') or k == 'self':
+                        env[k] = v
+            else:
+                env = dict(self.env) if len(f) <= 2 else dict()
+                if len(f) > 2:
+                    for k, v in self.env.items():
+                        if k.startswith('self.'):
+                            env.setdefault(k, v)
             a = fn.args
             params = [x.arg for x in a.posonlyargs + a.args]
             for p, d in zip(params[len(params) - len(a.defaults):],
@@ -361,6 +386,8 @@ class Machine:
                 for k, v in sub.env.items():
                     if k.startswith('self.'):
                         self.env[k] = v
+                        if defenv is not None:
+                            defenv[k] = v
             return None
         if callable(f):
             try:
@@ -392,12 +419,26 @@ class Machine:
             return min(vals) if n == 'min' else max(vals)
         if n == 'isinstance' and len(e.args) == 2:
             v = self.ev(e.args[0])
-            t = au.src(e.args[1])
-            if t == 'int':
-                return isinstance(v, int)
-            if t == 'bool':
-                return isinstance(v, bool)
-            raise Unknown(au.src(e))
+            types = e.args[1].elts if isinstance(
+                e.args[1], ast.Tuple) else [e.args[1]]
+            known = {
+                'int': int, 'bool': bool, 'str': str, 'dict': dict,
+                'list': list, 'tuple': tuple, 'set': (set, frozenset),
+                'frozenset': frozenset, 'float': float,
+                'Mapping': dict, 'MutableMapping': dict,
+                'Set': (set, frozenset), 'MutableSet': set,
+                'Sequence': (list, tuple, str), 'Sized': (
+                    dict, list, tuple, set, frozenset, str)}
+            if isinstance(v, (Sym, tuple)) and not isinstance(v, tuple):
+                raise Unknown(au.src(e))
+            out = False
+            for t in types:
+                tn = au.src(t).rsplit('.', 1)[-1]
+                if tn not in known:
+                    raise Unknown(au.src(e))
+                if isinstance(v, known[tn]):
+                    out = True
+            return out
         if n == 'get' and isinstance(e.func, ast.Attribute) and e.args:
             c = self.ev(e.func.value)
             if isinstance(c, dict):
@@ -552,7 +593,7 @@ class Machine:
             self.run(s.body if self.ev(s.test) else s.orelse)
             return
         if isinstance(s, (ast.FunctionDef,)):
-            self.env[s.name] = ('closure', s)
+            self.env[s.name] = ('closure', s, self.resolver, self.env)
             return
         if isinstance(s, ast.For):
             broke = False
